@@ -266,7 +266,7 @@ fn run_corr(args: &Args, search: bool) -> Report {
 /// (DESIGN.md section 9) - the exact exclusions of the proved class theorems; the predicate itself is
 /// harness/src/known01.rs (twin of Model/KnownC01.v).  None = not known.
 fn known_c01(base: Option<&Url>, input: &str) -> Option<&'static str> {
-    let kb = base.map(|b| known01::KBase { scheme: b.scheme(), cannot_be_a_base: b.cannot_be_a_base(), path: b.path() });
+    let kb = base.map(|b| known01::KBase { scheme: b.scheme(), cannot_be_a_base: b.cannot_be_a_base(), path: b.path(), has_authority: b.has_authority() });
     match known01::known_c01(kb.as_ref(), input) {
         0 => None,
         k => Some(known01::class_name(k)),
